@@ -67,19 +67,58 @@ class W17:
         act = InstantaneousAction("touch", _env=self.env)
         for f in self.fluents:
             self.problem.add_fluent(f)
-        # every fluent is modified by an action, so that none is static (the simplifier would substitute it)
+        # every fluent above is modified by an action, so that none is static (the simplifier would substitute it)
         for f in self.fluents:
             if f.arity == 0:
                 act.add_effect(f(), f.type.lower_bound)
             else:
                 for o in self.objs[self.T0]:
                     act.add_effect(f(o), f.type.lower_bound)
+        # changing fluents used as ARGUMENTS, and static numeric fluents (never modified; initial values below)
+        oa, ob = self.objs[self.T0]
+        self.pos = Fluent("pos", self.T0, environment=self.env)                 # object-valued, changing
+        self.level = Fluent("level", I(0, 2), environment=self.env)            # bounded int, changing
+        self.rate = Fluent("rate", I(1, 3), o=self.T0, environment=self.env)    # static, positive
+        self.drag = Fluent("drag", I(-2, 2), o=self.T0, environment=self.env)   # static, sign-changing over its arguments
+        self.bonus = Fluent("bonus", I(0, 5), l=I(0, 2), environment=self.env)  # static, steeply decreasing table
+        self.changing_args = [self.pos, self.level]
+        self.static_fluents = [self.rate, self.drag, self.bonus]
+        for f in self.changing_args + self.static_fluents:
+            self.fluents.append(f)
+            self.problem.add_fluent(f)
+        act.add_effect(self.pos(), ob)
+        act.add_effect(self.level(), 1)
+        self.problem.set_initial_value(self.pos(), oa)
+        self.problem.set_initial_value(self.level(), 0)
+        self.static_values = {}
+        for f, table in ((self.rate, {(oa,): 3, (ob,): 1}), (self.drag, {(oa,): -2, (ob,): 2}),
+                         (self.bonus, {(Fraction(0),): 5, (Fraction(1),): 2, (Fraction(2),): 0})):
+            for args, v in table.items():
+                self.static_values[(f, args)] = Fraction(v)
+                self.problem.set_initial_value(f(*[int(a) if isinstance(a, Fraction) else a for a in args]), v)
         self.problem.add_action(act)
+        assert set(self.problem.get_static_fluents()) == set(self.static_fluents)
+        self._abs = {}
+
+    def abstract(self, node):
+        """the fresh 0-ary fluent standing for a reported lifted fluent expression"""
+        if node not in self._abs:
+            from unified_planning.model import Fluent
+            self._abs[node] = self.em.FluentExp(Fluent("abs%d" % len(self._abs), node.fluent().type, environment=self.env))
+        return self._abs[node]
+
+    def groundings(self, f):
+        doms = []
+        for p in f.signature:
+            doms.append(self.objs[p.type] if p.type.is_user_type() else self.domain(p.type))
+        return list(product(*doms))
 
     def all_user_types(self):
         return [self.T0]
 
     def domain(self, t):
+        if t.is_user_type():
+            return list(self.objs[t])
         if t.is_int_type():
             return [Fraction(v) for v in range(t.lower_bound, t.upper_bound + 1)]
         lo, hi = Fraction(t.lower_bound), Fraction(t.upper_bound)
@@ -87,33 +126,93 @@ class W17:
         return pts
 
 
-def leaves(e):
-    """occurring ground fluent expressions and parameters of an arithmetic expression"""
-    fl, par, stack, seen = [], [], [e], set()
+def is_ground(fe):
+    return all(a.is_constant() or a.is_object_exp() for a in fe.args)
+
+
+def argval(a):
+    return a.object() if a.is_object_exp() else Fraction(a.constant_value())
+
+
+def slots_of(w, e, with_problem):
+    """ground fluents and parameters the value of e can depend on, with their domains (ascending).
+    A static ground fluent has the single value of the initial state when the checker knows the problem."""
+    fl, par, stack, seen = {}, [], [e], set()
+
+    def add(f, args):
+        if (f, args) in fl:
+            return
+        if with_problem and (f, args) in w.static_values:
+            fl[(f, args)] = [w.static_values[(f, args)]]
+        else:
+            fl[(f, args)] = w.domain(f.type)
+
     while stack:
         x = stack.pop()
         if x in seen:
             continue
         seen.add(x)
         if x.is_fluent_exp():
-            fl.append(x)
+            if is_ground(x):
+                add(x.fluent(), tuple(argval(a) for a in x.args))
+            else:
+                for args in w.groundings(x.fluent()):
+                    add(x.fluent(), tuple(args))
+                stack.extend(x.args)
         elif x.is_parameter_exp():
             par.append(x.parameter())
         else:
             stack.extend(x.args)
-    return sorted(fl, key=str), sorted(set(par), key=lambda p: p.name)
+    out = [("fl", k[0], k[1], d) for k, d in sorted(fl.items(), key=lambda kv: (kv[0][0].name, str(kv[0][1])))]
+    out += [("par", p, None, w.domain(p.type)) for p in sorted(set(par), key=lambda p: p.name)]
+    return out
 
 
-def py_oracle(w, e, obs):
-    """independent check of the implementation's answer by exhaustive evaluation (used to classify failing cases)"""
+def lifted_nodes(e):
+    out, stack, seen = [], [e], set()
+    while stack:
+        x = stack.pop()
+        if x in seen:
+            continue
+        seen.add(x)
+        if x.is_fluent_exp() and not is_ground(x):
+            out.append(x)
+        stack.extend(x.args)
+    return out
+
+
+def oracle_view(w, e, obs):
+    """replace every REPORTED lifted fluent expression by a fresh 0-ary fluent, in the expression and in the answer"""
+    if obs is None:
+        return e, None
+    lin, pos, neg = obs
+    rep = [k for k in (pos | neg) if k.is_fluent_exp() and not is_ground(k)]
+    if not rep:
+        return e, obs
+    sub = {k: w.abstract(k) for k in rep}
+    e2 = e.substitute(sub)
+    return e2, (lin, set(sub.get(k, k) for k in pos), set(sub.get(k, k) for k in neg))
+
+
+def slot_key_expr(w, sl):
+    """the FNode of a ground-fluent slot (to look it up in the reported sets)"""
+    kind, f, args, _ = sl
+    if kind != "fl":
+        return None
+    return w.em.FluentExp(f, [a if not isinstance(a, Fraction) else int(a) for a in args])
+
+
+def py_oracle(w, e, obs, with_problem):
+    """independent check of the implementation's answer by exhaustive evaluation (used to classify failing cases);
+    e / obs are the oracle's view (reported lifted fluent expressions already replaced)"""
     if obs is None or not obs[0]:
         return None
     lin, pos, neg = obs
-    fls, pars = leaves(e)
-    slots = [("fl", f) for f in fls] + [("par", p) for p in pars]
-    doms = [w.domain(s[1].type if s[0] == "par" else s[1].fluent().type) for s in slots]
-    for i, (kind, k) in enumerate(slots):
-        if kind != "fl":
+    slots = slots_of(w, e, with_problem)
+    doms = [sl[3] for sl in slots]
+    for i, sl in enumerate(slots):
+        k = slot_key_expr(w, sl)
+        if k is None:
             continue
         up = (k in pos) and (k not in neg)
         down = (k in neg) and (k not in pos)
@@ -126,8 +225,7 @@ def py_oracle(w, e, obs):
                 I = {"fl": {}, "par": {}, "ifun": {}, "objs": {}}
                 for j, c in list(zip(others, combo)) + [(i, v)]:
                     if slots[j][0] == "fl":
-                        fe = slots[j][1]
-                        I["fl"][(fe.fluent(), tuple(a.object() for a in fe.args))] = c
+                        I["fl"][(slots[j][1], slots[j][2])] = c
                     else:
                         I["par"][slots[j][1]] = c
                 try:
@@ -140,9 +238,23 @@ def py_oracle(w, e, obs):
                         continue
                     if (up and vals[a] > vals[b]) or (down and vals[a] < vals[b]):
                         return {"fluent": str(k), "reported": "positive" if up else "negative",
-                                "others": {str(slots[j][1]) if slots[j][0] == "fl" else slots[j][1].name: str(c) for j, c in zip(others, combo)},
+                                "others": {(str(slot_key_expr(w, slots[j])) if slots[j][0] == "fl" else slots[j][1].name): str(c)
+                                           for j, c in zip(others, combo)},
                                 "fluent_values": [str(doms[i][a]), str(doms[i][b])], "expr_values": [str(vals[a]), str(vals[b])]}
     return None
+
+
+def py_bad(e):
+    """the two "never linear" clauses on the walker's input (python twin of Corr_C17.bad)"""
+    def hf(x):
+        return x.is_fluent_exp() or any(hf(a) for a in x.args)
+    if e.is_times():
+        return sum(1 for a in e.args if hf(a)) >= 2 or any(py_bad(a) for a in e.args)
+    if e.is_div():
+        return hf(e.arg(1)) or py_bad(e.arg(0)) or py_bad(e.arg(1))
+    if e.is_plus() or e.is_minus():
+        return any(py_bad(a) for a in e.args)
+    return False
 
 
 class Gen17:
@@ -162,10 +274,20 @@ class Gen17:
         return self.em.Int(c) if isinstance(c, int) else self.em.Real(Fraction(c))
 
     def fluent(self):
-        f = self.rng.choice(self.w.fluents)
+        w, em, rng = self.w, self.em, self.rng
+        r = rng.random()
+        if r < 0.22:      # a static fluent applied to a CHANGING fluent (lifted fluent expression)
+            f = rng.choice(w.static_fluents)
+            return em.FluentExp(f, [em.FluentExp(w.level if f is w.bonus else w.pos)])
+        if r < 0.32:      # a static fluent applied to constants (substituted by the simplifier when the problem is known)
+            f = rng.choice(w.static_fluents)
+            return em.FluentExp(f, [em.Int(rng.randint(0, 2)) if f is w.bonus else em.ObjectExp(rng.choice(w.objs[w.T0]))])
+        if r < 0.4:
+            return em.FluentExp(w.level)
+        f = rng.choice([f for f in w.fluents if f not in w.static_fluents and f is not w.pos])
         if f.arity == 0:
-            return self.em.FluentExp(f)
-        return self.em.FluentExp(f, [self.em.ObjectExp(self.rng.choice(self.w.objs[self.w.T0]))])
+            return em.FluentExp(f)
+        return em.FluentExp(f, [em.ObjectExp(rng.choice(w.objs[w.T0]))])
 
     def leaf(self):
         r = self.rng.random()
@@ -227,6 +349,19 @@ def targeted(w):
         out += [em.Times(fl, x), em.Times(fl, ub), em.Div(fl, z), em.Div(fl, ua), em.Minus(fl, fl), em.Plus(fl, em.Times(-1, fl)),
                 em.Times(fl, em.Minus(x, x)), em.Div(fl, em.Minus(ua, 1)), em.Times(em.Plus(fl, 1), em.Minus(z, 5)),
                 em.Div(em.Times(fl, z), z), em.Times(em.Div(fl, 2), em.Div(ua, 2)), em.Times(0, fl), em.Times(fl, em.Minus(2, 2))]
+    # static fluents applied to changing fluents (object-valued and bounded-int-valued arguments), and to constants
+    pos, level = em.FluentExp(w.pos), em.FluentExp(w.level)
+    rp, dp, bl = em.FluentExp(w.rate, [pos]), em.FluentExp(w.drag, [pos]), em.FluentExp(w.bonus, [level])
+    ra, da, db, b1 = em.FluentExp(w.rate, [a]), em.FluentExp(w.drag, [a]), em.FluentExp(w.drag, [b]), em.FluentExp(w.bonus, [em.Int(1)])
+    for fl in (x, y, level, r):
+        for st in (rp, dp, bl):
+            out += [em.Times(fl, st), em.Times(st, fl), em.Div(fl, st), em.Plus(fl, st), em.Minus(fl, st), em.Minus(st, fl),
+                    em.Times(2, em.Plus(fl, st)), em.Div(em.Plus(fl, 1), em.Plus(st, 4)), em.Times(fl, em.Plus(st, 1)),
+                    em.Plus(em.Times(fl, 2), em.Times(st, -1)), em.Times(st, st), em.Div(st, fl), em.Times(em.Minus(st, st), fl)]
+        for st in (ra, da, db, b1):
+            out += [em.Times(fl, st), em.Div(fl, st), em.Plus(fl, st), em.Minus(st, fl), em.Div(st, fl), em.Times(st, P["p"], fl)]
+    out += [em.Plus(level, bl), em.Minus(level, bl), em.Plus(em.Times(level, 2), bl), em.Plus(level, em.Times(bl, -1)),
+            em.Times(level, P["s"], bl), em.Div(level, bl), bl, rp, em.Times(rp, P["p"]), em.Div(rp, P["s"]), em.Times(rp, dp)]
     return out
 
 
@@ -238,12 +373,12 @@ def ser_obs(obs, names):
                                     glist([ser_expr(k, names) for k in sorted(neg, key=str)]))
 
 
-def ser_doms(w, e, names, cap):
-    """domains of the occurring symbols; when the number of assignments exceeds `cap` the largest domains are thinned to
-    (low end, 0 or a middle point, high end).  Returns (gallina, number of assignments, thinned?)"""
-    fls, pars = leaves(e)
-    slots = [("fl", fe, w.domain(fe.fluent().type)) for fe in fls] + [("par", p, w.domain(p.type)) for p in pars]
-    doms = [list(d) for _, _, d in slots]
+def ser_doms(w, e, names, cap, with_problem):
+    """domains of the ground fluents / parameters the (oracle view of the) expression depends on; when the number of
+    assignments exceeds `cap` the largest domains are thinned to (low end, 0 or a middle point, high end).
+    Returns (gallina, number of assignments, thinned?)"""
+    slots = slots_of(w, e, with_problem)
+    doms = [list(sl[3]) for sl in slots]
 
     def total():
         t = 1
@@ -255,13 +390,13 @@ def ser_doms(w, e, names, cap):
     while total() > cap and any(len(d) > 3 for d in doms):
         i = max(range(len(doms)), key=lambda j: len(doms[j]))
         d = doms[i]
-        mid = Fraction(0) if (d[0] < 0 < d[-1] and Fraction(0) in d) else d[len(d) // 2]
-        doms[i] = sorted(set([d[0], mid, d[-1]]))
+        mid = Fraction(0) if (isinstance(d[0], Fraction) and d[0] < 0 < d[-1] and Fraction(0) in d) else d[len(d) // 2]
+        doms[i] = [v for v in d if v in (d[0], mid, d[-1])]
         thinned = True
     out = []
-    for (kind, x, _), dom in zip(slots, doms):
+    for (kind, x, args, _), dom in zip(slots, doms):
         if kind == "fl":
-            out.append(gpair("(SFl %s %s)" % (gn(names.fl(x.fluent())), glist([gn(names.obj(a.object())) for a in x.args])),
+            out.append(gpair("(SFl %s %s)" % (gn(names.fl(x)), glist([ser_value(a, names) for a in args])),
                              glist([ser_value(v, names) for v in dom])))
         else:
             out.append(gpair("(SPar %s)" % gn(names.par(x)), glist([ser_value(v, names) for v in dom])))
@@ -298,7 +433,8 @@ def run(ctx):
     for os in w.objs.values():
         for o in os:
             names.obj(o)
-    lc = LinearChecker(w.problem)
+    # two checkers: one that knows the problem (static fluents are substituted by the simplifier), one that does not
+    checkers = [("with-problem", LinearChecker(w.problem), True), ("no-problem", LinearChecker(environment=w.env), False)]
     g = Gen17(w, rng)
     exprs = [(e, "targeted") for e in targeted(w)]
     n_rand = 450 if ctx.quick else 50000
@@ -316,31 +452,55 @@ def run(ctx):
     exprs = uniq
 
     records, cases = [], []
-    stats = {"origin": {}, "answers": {}, "sizes": {}, "top_ops": {}, "simplified_changed": 0, "assignments_total": 0, "cases_with_thinned_domains": 0, "exceptions": 0}
+    stats = {"origin": {}, "checker": {}, "answers": {}, "sizes": {}, "top_ops": {}, "simplified_changed": 0, "assignments_total": 0,
+             "cases_with_thinned_domains": 0, "exceptions": 0,
+             "outside_theorem_hypothesis(lifted_fluent_arguments)": 0, "lifted_reported_and_abstracted": 0,
+             "lifted_cases_where_never_linear_clause_applies": 0, "with_static_fluent": 0}
     for e, origin in exprs:
-        simp = lc._simplifier.simplify(e)
-        try:
-            lin, pos, neg = lc.get_fluents(e)
-            obs = (lin, set(pos), set(neg))
-        except BaseException as ex:  # observed, compared with the model's None
-            obs = None
-            stats["exceptions"] += 1
-        records.append((e, simp, obs, origin))
-        gd, nassign, thinned = ser_doms(w, e, names, 400 if ctx.quick else 3000)
-        stats["assignments_total"] += nassign
-        stats["cases_with_thinned_domains"] += 1 if thinned else 0
-        cases.append("{| c_orig := %s; c_simp := %s; c_obs := %s; c_doms := %s |}" % (
-            ser_expr(e, names), ser_expr(simp, names), ser_obs(obs, names), gd))
-        stats["origin"][origin] = stats["origin"].get(origin, 0) + 1
-        key = "exception" if obs is None else ("nonlinear" if not obs[0] else
-                                               "linear:pos=%d,neg=%d,both=%d" % (len(obs[1] - obs[2]), len(obs[2] - obs[1]), len(obs[1] & obs[2])))
-        stats["answers"][key] = stats["answers"].get(key, 0) + 1
-        sz = size_of(e)
-        stats["sizes"][sz] = stats["sizes"].get(sz, 0) + 1
-        top = str(e.node_type).split(".")[-1]
-        stats["top_ops"][top] = stats["top_ops"].get(top, 0) + 1
-        if simp is not e:
-            stats["simplified_changed"] += 1
+        lifted = lifted_nodes(e)
+        has_static = any(x.is_fluent_exp() and x.fluent() in w.static_fluents for x in _all_nodes(e))
+        for cname, lc, with_problem in checkers:
+            if cname == "no-problem" and not (lifted or has_static) and rng.random() < 0.7:
+                continue     # without static fluents the two checkers coincide: keep a 30% sample of the second one
+            try:
+                simp = lc._simplifier.simplify(e)
+            except (ZeroDivisionError, AssertionError):
+                # substituting the static values makes a divisor the constant 0 (the simplifier raises ZeroDivisionError through the
+                # type checker, or asserts for constant / 0): the expression is undefined in this problem
+                stats["skipped_static_divisor_is_zero"] = stats.get("skipped_static_divisor_is_zero", 0) + 1
+                continue
+            try:
+                lin, pos, neg = lc.get_fluents(e)
+                obs = (lin, set(pos), set(neg))
+            except BaseException as ex:  # observed, compared with the model's None
+                obs = None
+                stats["exceptions"] += 1
+            oe, oobs = oracle_view(w, e, obs)
+            records.append((e, simp, obs, origin, cname, with_problem, oe, oobs))
+            gd, nassign, thinned = ser_doms(w, oe, names, 400 if ctx.quick else 3000, with_problem)
+            stats["assignments_total"] += nassign
+            stats["cases_with_thinned_domains"] += 1 if thinned else 0
+            cases.append("{| c_orig := %s; c_simp := %s; c_obs := %s; c_oobs := %s; c_doms := %s |}" % (
+                ser_expr(oe, names), ser_expr(simp, names), ser_obs(obs, names), ser_obs(oobs, names), gd))
+            stats["origin"][origin] = stats["origin"].get(origin, 0) + 1
+            stats["checker"][cname] = stats["checker"].get(cname, 0) + 1
+            key = "exception" if obs is None else ("nonlinear" if not obs[0] else
+                                                   "linear:pos=%d,neg=%d,both=%d" % (len(obs[1] - obs[2]), len(obs[2] - obs[1]), len(obs[1] & obs[2])))
+            stats["answers"][key] = stats["answers"].get(key, 0) + 1
+            sz = size_of(e)
+            stats["sizes"][sz] = stats["sizes"].get(sz, 0) + 1
+            top = str(e.node_type).split(".")[-1]
+            stats["top_ops"][top] = stats["top_ops"].get(top, 0) + 1
+            if simp is not e:
+                stats["simplified_changed"] += 1
+            if lifted_nodes(simp):
+                stats["outside_theorem_hypothesis(lifted_fluent_arguments)"] += 1
+                if py_bad(simp):
+                    stats["lifted_cases_where_never_linear_clause_applies"] += 1
+            if oe is not e:
+                stats["lifted_reported_and_abstracted"] += 1
+            if has_static:
+                stats["with_static_fluent"] += 1
 
     env_g = ser_env(w, names, [])
     preamble = "Definition G0 : tenv := %s.\n" % env_g
@@ -349,11 +509,13 @@ def run(ctx):
     phases['coq_cases_s'] = round(_time.time() - _t0, 1)
     shown = 0
     for i in bad[:12]:
-        e, simp, obs, origin = records[i]
-        witness = py_oracle(w, e, obs)
-        prop_fails = witness is not None
-        tags = ["c17", "origin:" + origin, "top:" + str(e.node_type).split(".")[-1]]
-        fls, pars = leaves(e)
+        e, simp, obs, origin, cname, with_problem, oe, oobs = records[i]
+        witness = py_oracle(w, oe, oobs, with_problem)
+        clause = obs is not None and obs[0] and py_bad(simp)
+        prop_fails = witness is not None or clause
+        tags = ["c17", "origin:" + origin, "checker:" + cname, "top:" + str(e.node_type).split(".")[-1]]
+        if lifted_nodes(simp):
+            tags.append("lifted-fluent-argument")
         if e.is_div():
             d = e.arg(1)
             tags.append("divisor:" + ("constant" if d.is_constant() else "parameter" if d.is_parameter_exp() else "expression"))
@@ -362,15 +524,21 @@ def run(ctx):
             shown += 1
             model = ctx.coq_show("(lin G0 (c_simp c), corr G0 c, oracle c, nonlinear_clauses c)", imports=IMPORTS,
                                  preamble=preamble + "Definition c := %s.\n" % cases[i])
-        if prop_fails:
+        if witness is not None:
             tags.append("reported-monotone-but-is-not")
-            what = "get_fluents(%s) = %s but the value is not monotone in %s as reported (oracle:C17:exhaustive evaluation)" % (
-                e, _obs_str(obs), witness["fluent"])
+            what = "[%s] get_fluents(%s) = %s but the value is not monotone in %s as reported (oracle:C17:exhaustive evaluation)" % (
+                cname, e, _obs_str(obs), witness["fluent"])
+            kind = "oracle"
+        elif clause:
+            tags.append("fluent-dependent-product-or-divisor-reported-linear")
+            what = "[%s] get_fluents(%s) = %s: reported linear although the walker's input %s multiplies two fluent-dependent factors / divides by a fluent-dependent divisor (oracle:C17:never-linear clauses)" % (
+                cname, e, _obs_str(obs), simp)
             kind = "oracle"
         else:
-            what = "get_fluents(%s) = %s differs from the model's walk on %s (corr:C17:lin)" % (e, _obs_str(obs), simp)
+            what = "[%s] get_fluents(%s) = %s differs from the model's walk on %s (corr:C17:lin)" % (cname, e, _obs_str(obs), simp)
             kind = "corr"
-        ctx.fail(kind, what, tags, {"expr": str(e), "simplified": str(simp), "observed": _obs_str(obs), "witness": witness,
+        ctx.fail(kind, what, tags, {"expr": str(e), "checker": cname, "simplified": str(simp), "observed": _obs_str(obs), "witness": witness,
+                                    "oracle_view": [str(oe), _obs_str(oobs)],
                                     "model_and_checks": model, "gallina_case": cases[i][:3000], "names": names.table(),
                                     "theorem_or_corr": "corr:C17:lin / oracle:C17_linear_mono_pos,neg"}, prop_fails)
 
@@ -384,15 +552,30 @@ def run(ctx):
                 "occurring symbols inside Coq (integer domains complete, real domains at 3-4 sample points; when an expression has more "
                 "than 400 (quick) / 3000 (thorough) assignments its largest domains are thinned to low end / 0 or middle / high end: see "
                 "distribution.cases_with_thinned_domains)",
-        "samples": [{"expr": str(r[0]), "simplified": str(r[1]), "answer": _obs_str(r[2]), "origin": r[3]} for r in (records[:3] + records[-3:])],
+        "samples": [{"expr": str(r[0]), "simplified": str(r[1]), "answer": _obs_str(r[2]), "origin": r[3], "checker": r[4]} for r in (records[:3] + records[-3:])],
         "distribution": stats,
         "phase_times_cumulative": phases,
         "traces_validated_against_impl": len(cases),
     }, "proof", assumptions=[
-        "arithmetic expressions over numeric constants, bounded parameters and ground fluent expressions (no interpreted functions)",
+        "arithmetic expressions over numeric constants, bounded parameters and fluent expressions (no interpreted functions); cases with "
+        "lifted fluent arguments (a static fluent applied to a changing fluent) are outside the hypothesis `arith` of the monotonicity "
+        "theorems and are judged by the correspondence and the oracle only (counted in distribution)",
+        "oracle reading for lifted fluent expressions: a REPORTED one is an independent quantity (replaced by a fresh fluent), an "
+        "UNREPORTED one is evaluated through the ground fluents it reads",
         "get_fluents = walk(simplify(e)); the simplified expression is observed, not modelled (C11)",
         "monotonicity is claimed where the expression is defined (no division by zero) and values respect the declared types",
     ])
+
+
+def _all_nodes(e):
+    stack, seen = [e], set()
+    while stack:
+        x = stack.pop()
+        if x in seen:
+            continue
+        seen.add(x)
+        yield x
+        stack.extend(x.args)
 
 
 def _obs_str(obs):
